@@ -111,12 +111,24 @@ pub struct BusListenerSnapshot {
 }
 
 #[derive(Debug, Clone, Default, PartialEq, Eq)]
+pub struct IntrospectionEntrySnapshot {
+    /// Registered connections.
+    pub conns: BTreeSet<usize>,
+    pub introspection: Option<aldrin_core::SerializedValue>,
+    /// Connection currently queried and the broker's serial of that query.
+    pub queried: Option<(usize, u32)>,
+    /// Waiting (connection, its serial) pairs.
+    pub pending: Vec<(usize, u32)>,
+}
+
+#[derive(Debug, Clone, Default, PartialEq, Eq)]
 pub struct GaugesSnapshot {
     pub num_connections: usize,
     pub num_objects: usize,
     pub num_services: usize,
     pub num_channels: usize,
     pub num_bus_listeners: usize,
+    pub num_introspections: Option<usize>,
 }
 
 #[derive(Debug, Clone, Default)]
@@ -129,6 +141,9 @@ pub struct BrokerSnapshot {
     pub function_calls: BTreeMap<u32, FunctionCallSnapshot>,
     pub channels: BTreeMap<ChannelCookie, ChannelSnapshot>,
     pub bus_listeners: BTreeMap<BusListenerCookie, BusListenerSnapshot>,
+    /// `None` when the broker is built without its `introspection` feature.
+    pub introspection: Option<BTreeMap<aldrin_core::TypeId, IntrospectionEntrySnapshot>>,
+    pub query_introspection: BTreeMap<u32, aldrin_core::TypeId>,
     pub gauges: Option<GaugesSnapshot>,
     pub has_work_left: bool,
     pub shutdown_now: bool,
